@@ -173,7 +173,7 @@ func c20Inline(r *Rng, depth int) string {
 			title := Pick(r, []string{"", "", ` "a title"`, ` "t & <u>"`, ` 'single'`, ` "with \"escaped\""`})
 			parts = append(parts, "["+c20Inline(r, depth-1)+Pick(r, []string{"", "", "", "\\\n", "  \n"})+"]("+Pick(r, []string{"https://example.com/a?b=1&c=2", "/rel/path", "#frag", "<url with spaces>", "http://x.y/ä", "mailto:a@b.c", "/p(q)"})+title+")")
 		case x < 12:
-			parts = append(parts, "!["+Pick(r, []string{"alt", "alt *em* text", "a & b", ""})+"]("+Pick(r, []string{"img.png", "/i/a b.png", "https://x.y/i.png?a=1&b=2"})+Pick(r, []string{"", ` "title"`})+")")
+			parts = append(parts, "!["+Pick(r, []string{"alt", "alt *em* text", "a & b", "", "two\nlines", "a \\* b"})+"]("+Pick(r, []string{"img.png", "/i/a b.png", "https://x.y/i.png?a=1&b=2"})+Pick(r, []string{"", ` "title"`})+")")
 		case x < 13:
 			parts = append(parts, Pick(r, []string{"<https://auto.link/x?a=1&b=2>", "<me@example.com>", "https://bare.link/path", "www.example.com"}))
 		case x < 14:
@@ -263,7 +263,7 @@ func c20Blocks(r *Rng, depth int) string {
 			}
 			bl = append(bl, strings.Join(rows, "\n"))
 		default:
-			bl = append(bl, Pick(r, []string{"<div class=\"raw\">\nraw *block*\n</div>", "<!-- comment block -->", "<details>\n<summary>s</summary>\n\ninner *md*\n\n</details>"}))
+			bl = append(bl, Pick(r, []string{"<div class=\"raw\">\nraw *block*\n</div>", "<!-- comment block -->", "<!--\nmulti\nline\n-->", "<script>\nlet a = 1 < 2;\n</script>", "<details>\n<summary>s</summary>\n\ninner *md*\n\n</details>"}))
 		}
 	}
 	return strings.Join(bl, "\n\n")
@@ -436,6 +436,9 @@ func (d *c20Dump) plain(n gast.Node) string {
 	for c := n.FirstChild(); c != nil; c = c.NextSibling() {
 		if t, ok := c.(*gast.Text); ok {
 			sb.WriteString(c20Resolve(t.Segment.Value(d.src)))
+			if t.SoftLineBreak() {
+				sb.WriteString("\n")
+			}
 		} else if c.HasChildren() {
 			sb.WriteString(d.plain(c))
 		}
